@@ -51,6 +51,10 @@ var registry = map[string]func(fw.Config, *fw.Rec){
 }
 
 func main() {
+	if name := os.Getenv("VERIF_DEEPCASE"); name != "" {
+		// one deep-value case of C07, in a process of its own
+		os.Exit(c07.DeepCase(name))
+	}
 	cfg, err := fw.ChildConfig()
 	if err != nil {
 		fmt.Fprintln(os.Stderr, err)
